@@ -282,6 +282,9 @@ struct Batch {
                 ++n_pow2;
             }
         }
+        if (t && (n_total & 0x3FFFFF) == 0x2AAAA) {
+            vf::sample(sizeof(T) == 4 ? "floor" : "rint", [&] { return std::string("all unary functions on ") + BitsOf<T>::name + " " + show_arg(x); });
+        }
         if (pats.size() >= (1U << 16)) { flush(); }
     }
     void flush()
